@@ -303,44 +303,61 @@ Definition run_uses_pinned (k : kind) (o : copts) := run_uses_gen (step_pinned k
 Definition init_state (o : copts) (c : cont) : cst := {| c_val := c; c_clearp := o_clear o; c_cnt := 0 |}.
 
 (* ------------------------------------------------------------------ *)
-(** * The command line of a C06 case: uses of the one container argument *)
+(** * The command line of a C06 case: uses of the one container argument,
+      optionally interleaved with uses of one boolean flag argument *)
 
-Inductive use := UKey (v : str) | UFree (v : str).
+Inductive use := UKey (v : str) | UFree (v : str) | UFlag.
 
 Definition dashed_word (w : str) : bool := match w with c :: _ => ceq c DASH | [] => false end.
 
-(** [-k v] / [--key v]: the word after the key is its value (a missing value
-    or a word starting with a dash is refused); other words are free values *)
-Fixpoint parse_words (ws : list str) : res (list use) :=
+(** [flags]: the spellings of the flag argument ("-f", "--flag").  Any other
+    dashed word is the key of the container: the word after it is its value (a
+    missing value or a word starting with a dash is refused); other words are
+    free values *)
+Fixpoint parse_words (flags : list str) (ws : list str) : res (list use) :=
   match ws with
   | [] => Ok []
   | w :: r =>
       if dashed_word w then
-        match r with
-        | v :: r' => if dashed_word v then Err EArgument else do us <- parse_words r'; Ok (UKey v :: us)
-        | [] => Err EArgument
-        end
-      else do us <- parse_words r; Ok (UFree w :: us)
+        if str_in w flags then do us <- parse_words flags r; Ok (UFlag :: us)
+        else
+          match r with
+          | v :: r' => if dashed_word v then Err EArgument
+                       else do us <- parse_words flags r'; Ok (UKey v :: us)
+          | [] => Err EArgument
+          end
+      else do us <- parse_words flags r; Ok (UFree w :: us)
   end.
 
-(** Handler::evalSingleArgument, case value: the free value goes to the last
-    argument if that takes multiple values; there is no positional argument *)
-Fixpoint run_events (stp : str -> cont -> res cont) (o : copts) (st : cst) (have_last : bool)
-    (us : list use) : res cst :=
+(** TypedArg< bool>: cardinality "at most once" *)
+Definition flag_card : card := CardMax 1.
+
+(** Handler::processArg sets mpLastArg to the argument found, whatever its
+    value mode; Handler::evalSingleArgument, case value: the free value goes to
+    the last argument if that takes multiple values; there is no positional
+    argument.  [have_last]: mpLastArg is the container argument; [fc]: the
+    counter of the flag's cardinality. *)
+Fixpoint run_events (stp : str -> cont -> res cont) (o : copts) (st : cst) (have_last : bool) (fc : Z)
+    (us : list use) : res (cst * Z) :=
   match us with
-  | [] => Ok st
-  | UKey v :: r => do st1 <- use_value stp o st v; run_events stp o st1 true r
+  | [] => Ok (st, fc)
+  | UKey v :: r => do st1 <- use_value stp o st v; run_events stp o st1 true fc r
   | UFree v :: r =>
-      if have_last && o_multi o then do st1 <- use_value stp o st v; run_events stp o st1 true r
+      if have_last && o_multi o then do st1 <- use_value stp o st v; run_events stp o st1 true fc r
       else Err EInvalidArgument
+  | UFlag :: r => do fc1 <- card_got flag_card fc; run_events stp o st false fc1 r
   end.
 
-(** evalArguments for a configuration with one container argument *)
-Definition eval_gen (pinned : bool) (k : kind) (o : copts) (c : cont) (words : list str) : res cst :=
-  do us <- parse_words words;
-  do st <- run_events (step_gen pinned k o) o (init_state o c) false us;
-  do _ <- card_end (o_card o) (c_cnt st);
-  Ok st.
+(** TypedArg< bool>::assign: the destination gets the opposite of its initial value *)
+Definition flag_value (init : bool) (fc : Z) : bool := if Z.ltb 0 fc then negb init else init.
+
+(** evalArguments for a configuration with one container argument (and the flag) *)
+Definition eval_gen (pinned : bool) (k : kind) (o : copts) (c : cont) (flags : list str) (words : list str)
+  : res (cst * Z) :=
+  do us <- parse_words flags words;
+  do r <- run_events (step_gen pinned k o) o (init_state o c) false 0 us;
+  do _ <- card_end (o_card o) (c_cnt (fst r));
+  Ok r.
 
 Definition eval := eval_gen false.
 Definition eval_pinned := eval_gen true.
